@@ -341,7 +341,7 @@ def build_oracle(name, modules):
         return binp
 
 
-def run_tool(binary, lines, shards=NPROC, timeout=3000, env=None, multi=False):
+def run_tool(binary, lines, shards=NPROC, timeout=900, env=None, multi=False):
     """Feed `lines` (one case per line) to `binary`, sharded; returns list of output lines
     aligned with the input (each input line must yield exactly one output line)."""
     if not lines:
@@ -356,17 +356,28 @@ def run_tool(binary, lines, shards=NPROC, timeout=3000, env=None, multi=False):
             e.update(env)
         res = []
         while True:
-            p = subprocess.run([binary], input="\n".join(chunk) + "\n", stdout=subprocess.PIPE, stderr=subprocess.DEVNULL,
-                               text=True, timeout=timeout, env=e)
-            out = p.stdout.split("\n")
+            hung = False
+            try:
+                p = subprocess.run([binary], input="\n".join(chunk) + "\n", stdout=subprocess.PIPE, stderr=subprocess.DEVNULL,
+                                   text=True, timeout=timeout, env=e)
+                stdout, rcode = p.stdout, p.returncode
+            except subprocess.TimeoutExpired as ex:
+                # a case that does not return: everything printed so far is kept, the next case is the one that hangs
+                hung = True
+                so = ex.stdout or ""
+                stdout = so.decode("utf-8", "replace") if isinstance(so, bytes) else so
+                rcode = "timeout"
+            out = stdout.split("\n")
             if out and out[-1] == "":
                 out.pop()
             if multi:
                 return out
+            if hung and stdout and not stdout.endswith("\n") and out:
+                out.pop()          # partial last line
             if len(out) >= len(chunk):
                 return res + out[:len(chunk)]
-            # the process died (abort / stack overflow) on case len(out): mark it, continue after it
-            res += out + ["CRASH rc=%s" % p.returncode]
+            # the process died (abort / stack overflow) or hung on case len(out): mark it, continue after it
+            res += out + [("HANG (no result within %ss)" % timeout) if hung else ("CRASH rc=%s" % rcode)]
             chunk = chunk[len(out) + 1:]
             if not chunk:
                 return res
